@@ -2843,7 +2843,13 @@ guess_file_type (SF_PRIVATE *psf)
 
 retry:
 	if (psf_binheader_readf (psf, "b", &buffer, SIGNED_SIZEOF (buffer)) != SIGNED_SIZEOF (buffer))
-	{	psf->error = SFE_BAD_FILE_READ ;
+	{	/*
+		**	Too short for any header. The data file of an SD2 file has no header
+		**	at all (it is known by its resource fork) and may well be this short.
+		*/
+		if ((format = try_resource_fork (psf)) != 0)
+			return format ;
+		psf->error = SFE_BAD_FILE_READ ;
 		return 0 ;
 		} ;
 
